@@ -66,15 +66,16 @@ def run(eng, p):
         status = bench.run(max_steps=400)
     except Exception as e:
         import traceback
-        eng.fail("exception %s: %s" % (type(e).__name__, e), regions=regs, detail=traceback.format_exc(limit=-4))
+        eng.fail("exception %s: %s" % (type(e).__name__, e), detail=traceback.format_exc(limit=-4))
         return
     values = {n: c.current_value for n, c in bench.comps.items()}
     eng.notes["outcome"] = {"status": status, "values": values, "finished": sorted(bench.finished)}
-    eng.prove(status == "quiescent", "SyncBB did not terminate within 400 transitions", regions=regs)
+    # the listed finding (pruning with negative costs) concerns optimality only: everything else is checked without region
+    eng.prove(status == "quiescent", "SyncBB did not terminate within 400 transitions")
     first = sorted(bench.comps)[0]
     eng.prove(sorted(set(bench.finished)) == sorted(bench.comps), "terminate did not reach every computation",
-              regions=regs, detail=str(eng.notes["outcome"]))
+              detail=str(eng.notes["outcome"]))
     in_dom = all(values[v] in inst.domains[v] for v in inst.var_names())
-    eng.prove(in_dom, "held values do not form a complete assignment over the domains", regions=regs, detail=str(values))
+    eng.prove(in_dom, "held values do not form a complete assignment over the domains", detail=str(values))
     if in_dom:
         eng.prove(inst.is_optimal(values), "assignment held at termination is not optimal", regions=regs, detail=str(values))
